@@ -233,11 +233,13 @@ def run(tier, seed, replay=None):
     if tier == "quick":
         small_len = 2
         cmds += ["small 2 %d %d" % (k, 4) for k in range(4)]
+        cmds += ["targeted %d %d" % (k, 2) for k in range(2)]
         cmds += ["random 5000 %d 5" % (seed * 1000 + i) for i in range(shards)]
         cmds += ["vm 4000 %d" % (seed * 1000 + 500 + i) for i in range(4)]
     else:
         small_len = 3
         cmds += ["small 3 %d %d" % (k, shards) for k in range(shards)]
+        cmds += ["targeted %d %d" % (k, 4) for k in range(4)]
         cmds += ["random 60000 %d 6" % (seed * 1000 + i) for i in range(shards)]
         cmds += ["vm 60000 %d" % (seed * 1000 + 500 + i) for i in range(shards)]
     mism, stats = [], {}
@@ -295,7 +297,10 @@ def run(tier, seed, replay=None):
                 "shapes wrapper(leaf then/else leaf), wrapper(wrapper(leaf)), rule-alternatives over 9 leaves and 8 wrappers (rule, sequence, optional, "
                 "both look-aheads, atomic, repeat) x all inputs of length <= %d over {a, b, e-acute, B}; random trees of depth <= 5-6 (prog generators of "
                 "pvharness::prog plus rule/alternative-biased ones, wide alternatives of 2-6 failing rules around CALL_STACK_CHILDREN_THRESHOLD, stack "
-                "ops, call limits, inputs with newlines and > 9 lines); random grammars of 1-4 rules (all operators, modifiers, PUSH/POP/PEEK, "
+                "ops, call limits, inputs with newlines and > 9 lines); enumerated and random `wide choice of rules under nested rules` (0-3 attempts "
+                "already recorded, 1-3 enclosing rules, 2-6 failing rule alternatives, all at one position) and stack-slice matching (2-3 pushed "
+                "literals, stack_match_peek / peek_slice / match_pop as alternative or under optional / repeat / look-ahead, inputs matching every "
+                "prefix of the stack in both orders), the same two families as grammars (PUSH ~ PUSH ~ PEEK_ALL | PEEK[a..b] ...); random grammars of 1-4 rules (all operators, modifiers, PUSH/POP/PEEK, "
                 "WHITESPACE) through pest_meta + pest_vm. Compared between the two runs: Ok/Err/panic, final core state, tokens, error "
                 "position/positives/negatives (VM: the whole Debug + Display of the error); on the detail run: max_position <= len and char boundary, "
                 "parse_attempts_error built and rendered under catch_unwind. Compared with the model: final state incl. call stacks/tokens/max_position, "
